@@ -22,6 +22,8 @@ func (l *List) Elements() iter.Seq[Value] {
 	return func(yield func(Value) bool) {
 		if !l.frozen {
 			l.itercount++
+			vIter(1, l)
+			defer vIter(-1, l)
 			defer func() { l.itercount-- }()
 		}
 		for _, x := range l.elems {
